@@ -49,6 +49,27 @@ class RecModule:
         return RecSock(self.log)
 
 
+class DownSock(RecSock):
+    def connect(self, a):
+        raise ConnectionRefusedError(111, "Connection refused")
+
+
+class DownModule(RecModule):
+    """The server is not there: every connect is refused."""
+
+    def socket(self, *a):
+        return DownSock(self.log)
+
+
+# an illegal key is reported as such whether or not the server can be reached, by every kind of operation
+DOWN_OPS = [("get", lambda o, k: o.get(k)), ("set", lambda o, k: o.set(k, b"v", noreply=False)),
+            ("add", lambda o, k: o.add(k, b"v")), ("cas", lambda o, k: o.cas(k, b"v", b"1")),
+            ("set_many", lambda o, k: o.set_many({k: b"v"})), ("get_many", lambda o, k: o.get_many([k])),
+            ("delete", lambda o, k: o.delete(k)), ("incr", lambda o, k: o.incr(k, 1)),
+            ("touch", lambda o, k: o.touch(k, 5)), ("gets", lambda o, k: o.gets(k)),
+            ("delete_many", lambda o, k: o.delete_many([k])), ("append", lambda o, k: o.append(k, b"v"))]
+
+
 def verdicts(key, prefix, uni, hash_too):
     """[(entry point, 'ok'|'illegal'|'other:<Type>', wire or None)]"""
     out = []
@@ -105,10 +126,26 @@ def verdicts(key, prefix, uni, hash_too):
                     out.append((name, "no-server-error", None))
                 else:
                     out.append((name, "other:" + type(e).__name__, None))
+        for cls, cname, args in ((Client, "Client", ("/s",)), (PooledClient, "PooledClient", ("/s",)),
+                                 (HashClient, "HashClient", (["/s"],))):
+            for opname, call in DOWN_OPS:
+                mod = DownModule()
+                h = cls(*args, key_prefix=prefix, allow_unicode_keys=uni, socket_module=mod)
+                name = f"{cname}.{opname}[server down]"
+                try:
+                    call(h, key)
+                    out.append((name, "down-no-error", None))
+                except MemcacheIllegalInputError:
+                    out.append((name, "illegal", None))
+                except ConnectionRefusedError:
+                    out.append((name, "down-refused", None))
+                except Exception as e:
+                    out.append((name, "other:" + type(e).__name__, None))
     return out
 
 
-def judge(chk, key, prefix, uni, hash_too):
+def judge(chk, key, prefix, uni_cfg, hash_too):
+    uni = bool(uni_cfg)  # the oracle's reading of the flag; the library receives the value as configured
     verdict, wire = keyspace.legal(key, prefix, uni)
     chk.add()
     if verdict == "outside":
@@ -116,9 +153,13 @@ def judge(chk, key, prefix, uni, hash_too):
     rs = keyspace.reason(key, prefix, uni)
     if verdict == "illegal" or "len" in rs or "high" in rs:
         chk.outcome((rs, len(prefix), uni, hash_too))
-    for name, got, w in verdicts(key, prefix, uni, hash_too):
+    for name, got, w in verdicts(key, prefix, uni_cfg, hash_too):
         bad = None
-        if got in ("no-server-default", "no-server-error"):
+        if got in ("down-refused", "down-no-error"):
+            if verdict == "illegal":
+                bad = ("illegal-key-not-reported", "did not raise MemcacheIllegalInputError for an illegal key "
+                       f"({'ConnectionRefusedError instead' if got == 'down-refused' else 'no error at all'})")
+        elif got in ("no-server-default", "no-server-error"):
             # nothing can be sent; a legal key gets the default / 'all servers down'; an illegal key must still be rejected
             if verdict == "illegal":
                 bad = ("illegal-key-not-reported", "did not raise MemcacheIllegalInputError for an illegal key "
@@ -139,11 +180,11 @@ def judge(chk, key, prefix, uni, hash_too):
         elif verdict == "legal" and w != wire:
             bad = ("wire-form", f"returned/transmitted {w!r}, expected prefix+encoded key {wire!r}")
         if bad:
-            sig = f"{bad[0]}|{name}|{rs}|unicode={uni}"
+            sig = f"{bad[0]}|{name}|{rs}|unicode={uni_cfg!r}"
             chk.violation(sig, f"{name}(key={key!r}, prefix={prefix[:12]!r}{'...' if len(prefix) > 12 else ''} "
-                          f"[{len(prefix)} bytes], allow_unicode_keys={uni}) {bad[1]}",
+                          f"[{len(prefix)} bytes], allow_unicode_keys={uni_cfg!r}) {bad[1]}",
                           {"key": key if isinstance(key, str) else {"hex": key.hex()}, "is_str": isinstance(key, str),
-                           "prefix_hex": prefix.hex(), "unicode": uni, "hash_too": hash_too})
+                           "prefix_hex": prefix.hex(), "unicode": uni_cfg, "hash_too": hash_too})
 
 
 def _worker(job, chk):
@@ -183,6 +224,10 @@ def _jobs(tier):
             for prefix in keyspace.PREFIXES:
                 for uni in (False, True):
                     jobs.append((kind, as_str, prefix, uni, tier))
+                if kind in ("class2", "boundary"):
+                    # the flag is a truth value: 1 / "yes" enable unicode keys, 0 / "" / None do not
+                    for uni in ((1, 0) if tier == "quick" else (1, 0, "yes", "", None, 2)):
+                        jobs.append((kind, as_str, prefix, uni, tier))
     return jobs
 
 
